@@ -1086,19 +1086,22 @@ def eval_option(case, tmpdir=None):
         if opt in ("vary_rounds", "truncate_error") and not cat:
             # the context-wide settings: set and unset under the bare and the all__ spelling, in every combination
             pairs += [(a, b) for a in (opt, f"all__{opt}") for b in (opt, f"all__{opt}")]
+        # (truncate_error also reads the strings 'none' / '' as "not set": the same through update())
+        nulls = (None, "none", "") if opt == "truncate_error" else (None,)
         for set_key, unset_key in pairs:
-            if True:
+            for null in nulls:
+                ntag = tag if null is None else f"{tag}:{null!r}"
                 try:
                     with warnings.catch_warnings():
                         warnings.simplefilter("ignore")
                         o = CryptContext(schemes=[name], **{set_key: v})
-                        o.update(**{unset_key: None})
+                        o.update(**{unset_key: null})
                         d2 = o.to_dict()
                 except Exception as e:  # noqa: BLE001
-                    out.append((f"C10|options|unset:raises:{tag}:{type(e).__name__}", f"CryptContext(schemes=[{name!r}], {set_key}={v!r}).update({unset_key}=None) raised {e!r}"))
+                    out.append((f"C10|options|unset:raises:{ntag}:{type(e).__name__}", f"CryptContext(schemes=[{name!r}], {set_key}={v!r}).update({unset_key}={null!r}) raised {e!r}"))
                     continue
                 if d2 != {"schemes": [name]}:
-                    out.append((f"C10|options|unset:still_set:{tag}", f"CryptContext(schemes=[{name!r}], {set_key}={v!r}).update({unset_key}=None) still exports {d2!r}"))
+                    out.append((f"C10|options|unset:still_set:{ntag}", f"CryptContext(schemes=[{name!r}], {set_key}={v!r}).update({unset_key}={null!r}) still exports {d2!r}"))
     return out
 
 
